@@ -117,6 +117,15 @@ def chars (s : String) : List Char := s.toList
 
 /-- `s[i]` on a byte string: `none` is Go's index-out-of-range panic -/
 def byteAt? (s : List Nat) (i : Int) : Option Nat := if i < 0 then none else s[i.toNat]?
+/-- `s[i]` on a byte string inside a loop guarded by `len(s) > i` (the default is never read there) -/
+def byteAt (s : List Nat) (i : Int) : Int := ((s.getD i.toNat 0 : Nat) : Int)
+
+/-- a `[N]uint8{k: v, …}` table as the fact extractor reads it (keys, values): unlisted indices are 0 -/
+def lookupTbl (keys vals : List Nat) (i : Int) : Int :=
+  match (keys.zip vals).lookup i.toNat with
+  | some v => (v : Int)
+  | none => 0
+
 /-- `s[lo:hi]` on a byte string (callers establish 0 ≤ lo ≤ hi ≤ len) -/
 def slice {β : Type} (s : List β) (lo hi : Int) : List β := (s.drop lo.toNat).take (hi.toNat - lo.toNat)
 
